@@ -65,26 +65,35 @@ def ringOps (inp impl : Json) : Except String Resp := do
 
 /-! ### c20.pool — event scripts through the real controllers -/
 
-open Karp.PoolHealth (Ev) in
+open Karp.PoolHealth (Ev Fault) in
+/-- "Sa!" → ("Sa", patch), "Xs~" → ("Xs", get), "C" → ("C", none); `!` (409) and `?` (500) on the status patch
+    differ only in how the controller asks for the retry -/
+def splitEv (ev : String) : String × Fault :=
+  if ev.endsWith "!" || ev.endsWith "?" then ((ev.dropEnd 1).toString, .patch)
+  else if ev.endsWith "~" then ((ev.dropEnd 1).toString, .get)
+  else (ev, .none)
+
+open Karp.PoolHealth (Ev Fault) in
 /-- what an event of the script means for pool `a` / pool `b` -/
 def projectEv (pool : String) (ev : String) : Except String Ev :=
-  match ev with
-  | "Sa" => pure (if pool = "a" then .success else .noise)
-  | "Fa" => pure (if pool = "a" then .failure else .noise)
-  | "La" => pure (if pool = "a" then .failure else .noise)
-  | "Za" => pure (if pool = "a" then .lateFailure else .noise)
-  | "Pa" => pure (if pool = "a" then .poolEdit else .noise)
-  | "Sb" => pure (if pool = "b" then .success else .noise)
-  | "Fb" => pure (if pool = "b" then .failure else .noise)
-  | "Lb" => pure (if pool = "b" then .failure else .noise)
-  | "Zb" => pure (if pool = "b" then .lateFailure else .noise)
-  | "Pb" => pure (if pool = "b" then .poolEdit else .noise)
-  | "Xs" => pure .noise
-  | "Xf" => pure .noise
-  | "C" => pure .classEdit
-  | "R" => pure .restart
-  | "N" => pure .resync
-  | _ => .error s!"bad event {ev}"
+  let (base, f) := splitEv ev
+  let mine (k : String) : Bool := base = k ++ pool
+  let other (k : String) : Bool := base = k ++ (if pool = "a" then "b" else "a")
+  if mine "S" then pure (.success f)
+  else if mine "T" || mine "E" then pure (.lateSuccess f)
+  else if mine "W" then pure (.slowSuccess f)
+  else if mine "F" || mine "G" then pure (.failure f)
+  else if mine "L" then pure (.launchFailure f)
+  else if mine "Z" then pure (.lateFailure f)
+  else if mine "P" then (if f = .get then .error s!"bad event {ev}" else pure (.poolEdit f))
+  else if ["S", "T", "E", "W", "F", "G", "L", "Z"].any other then pure .noise
+  else if other "P" then (if f = .get then .error s!"bad event {ev}" else pure .noise)
+  else if base = "Xs" || base = "Xf" then pure .noise
+  -- both pools are reconciled, pool a first: its patch (always issued after a NodeClass edit) meets the fault
+  else if base = "C" then (if f = .get then .error s!"bad event {ev}" else pure (.classEdit (if pool = "a" then f else .none)))
+  else if ev = "R" then pure .restart
+  else if ev = "N" then pure .resync
+  else .error s!"bad event {ev}"
 
 def firstDiffL (a b : List (List Nat)) (i : Nat := 0) : Option Nat :=
   match a, b with
@@ -97,16 +106,6 @@ def obsName (xs : List Nat) : String :=
   let st (n : Nat) := match n with | 0 => "Unknown" | 1 => "Healthy" | 2 => "Unhealthy" | _ => "?"
   s!"condition={c} tracker={st (xs.getD 1 9)} what-if(success)={st (xs.getD 2 9)} what-if(failure)={st (xs.getD 3 9)}"
 
-/-- the specification's observations if every late launch failure counted as TWO failed attempts
-    (the known defect); only used to classify a violation, never to judge -/
-def specObsLateTwice (s : Karp.Spec.PoolHealth.S) : List Karp.PoolHealth.Ev → List (List Nat)
-  | [] => []
-  | e :: es =>
-    let s' := match e with
-      | .lateFailure => Karp.Spec.PoolHealth.step (Karp.Spec.PoolHealth.step s .failure) .failure
-      | e => Karp.Spec.PoolHealth.step s e
-    Karp.Spec.PoolHealth.observe s' :: specObsLateTwice s' es
-
 def pool (inp impl : Json) : Except String Resp := do
   let steps ← (← arrF inp "steps").mapM asStr
   let one (name : String) : Except String (List (List Nat) × List (List Nat) × List (List Nat)) := do
@@ -115,11 +114,11 @@ def pool (inp impl : Json) : Except String Resp := do
       Karp.PoolHealth.observations Karp.PoolHealth.Pool.started evs
     let spec := Karp.Spec.PoolHealth.observe Karp.Spec.PoolHealth.S.init ::
       Karp.Spec.PoolHealth.observations Karp.Spec.PoolHealth.S.init evs
-    let twice := Karp.Spec.PoolHealth.observe Karp.Spec.PoolHealth.S.init ::
-      specObsLateTwice Karp.Spec.PoolHealth.S.init evs
-    pure (model, spec, twice)
-  let (ma, sa, ta) ← one "a"
-  let (mb, sb, tb) ← one "b"
+    let known := Karp.Spec.PoolHealth.observe Karp.Spec.PoolHealth.S.init ::
+      Karp.Spec.PoolHealth.observationsKnown Karp.Spec.PoolHealth.S.init evs
+    pure (model, spec, known)
+  let (ma, sa, ka) ← one "a"
+  let (mb, sb, kb) ← one "b"
   let jl (l : List (List Nat)) := jArr (l.map (fun o => jArr (o.map jNat)))
   -- the property's verdict on what the real controllers did
   let judge (name : String) (spec : List (List Nat)) : Except String (Bool × String) :=
@@ -134,15 +133,19 @@ def pool (inp impl : Json) : Except String Resp := do
         pure (false, s!"pool {name} after {ev}: the launch window requires [{obsName (spec.getD i [])}], the controllers left [{obsName (got.getD i [])}]")
   let (oka, whya) ← judge "a" sa
   let (okb, whyb) ← judge "b" sb
-  -- classification of a violation: the known defect and nothing else iff what the controllers left is exactly
-  -- the specification with every late launch failure counted twice
+  -- classification of a violation: the known defect and nothing else iff what the controllers left is exactly the
+  -- specification with every registration that met a failing NodePool call dropped (`Spec.PoolHealth.stepKnown`,
+  -- written at the operator's level: it does not follow the model or the regenerated facts)
   let exactly (name : String) (want : List (List Nat)) : Bool :=
     match fldOpt impl name with
     | some j => match listOf natList j with
       | .ok got => got == want
       | .error _ => false
     | none => false
-  let sig := if exactly "a" ta && exactly "b" tb then "pool:late-launch-failure-recorded-twice" else "pool"
+  let noAnomaly : Bool := match fldOpt impl "anomalies" with
+    | some (.arr a) => a.isEmpty
+    | _ => false
+  let sig := if exactly "a" ka && exactly "b" kb && noAnomaly then "pool:success-lost-on-nodepool-api-failure" else "pool"
   pure { model := some (jObj [("a", jl ma), ("b", jl mb), ("anomalies", jArr [])]),
          spec := some (oka && okb), why := if !oka then whya else whyb,
          extra := if oka && okb then none else some (jObj [("signature", jStr sig)]) }
